@@ -85,6 +85,21 @@ type sfEngine struct {
 	powLimit     *big.Int          // 2^63 * PowerReduction: a validator whose tokens reach it cannot be written to the power index (Int64 panics)
 	blockedTopup map[string]string // per account: a top-up since the last refresh whose mint the validator could not take (reason)
 	noEmit       bool              // oracle-only tail of a history: ops run on the real keepers and through every oracle, no op line for the model
+	hist         []string         // op lines of the current history (replay of an export/import oracle failure)
+}
+
+// histStr: the op lines of the current history since its `reset` (newest first, bounded): the failing input of an oracle failure
+func (e *sfEngine) histStr() string {
+	var b strings.Builder
+	b.WriteString(" | history, newest op first: ")
+	for i := len(e.hist) - 1; i >= 0 && i >= len(e.hist)-50; i-- {
+		b.WriteString(strings.TrimPrefix(e.hist[i], "superfluid "))
+		b.WriteString(" ; ")
+	}
+	if len(e.hist) > 0 {
+		b.WriteString("... ; " + e.hist[0])
+	}
+	return b.String()
 }
 
 // one step of a directed macro: the op is computed when the step is executed (it may refer to locks the macro
@@ -925,8 +940,10 @@ func (e *sfEngine) setup(t *testing.T, su sfSetup) {
 		ks = append(ks, fmt.Sprintf("%s:%s", vl.tokens, vl.shares))
 	}
 	obs, _ := e.observe()
-	o.Emit(fmt.Sprintf("superfluid reset %d %d %s %s %s %d %d v=%s a=%s d=%s k=%s p=%s", e.now(), e.ubs, e.rf, sup, off, h.App.IncentivesKeeper.GetLastGaugeID(ctx),
-		h.App.LockupKeeper.GetLastLockID(ctx), strings.Join(vs, ","), strings.Join(as, ","), strings.Join(ds, ","), strings.Join(ks, ","), h.App.StakingKeeper.PowerReduction(ctx)), "ok "+obs, false)
+	resetLine := fmt.Sprintf("superfluid reset %d %d %s %s %s %d %d v=%s a=%s d=%s k=%s p=%s", e.now(), e.ubs, e.rf, sup, off, h.App.IncentivesKeeper.GetLastGaugeID(ctx),
+		h.App.LockupKeeper.GetLastLockID(ctx), strings.Join(vs, ","), strings.Join(as, ","), strings.Join(ds, ","), strings.Join(ks, ","), h.App.StakingKeeper.PowerReduction(ctx))
+	o.Emit(resetLine, "ok "+obs, false)
+	e.hist = []string{resetLine}
 }
 
 func runSuperfluid(t *testing.T, seed int64, n int, dir string) {
@@ -2022,7 +2039,50 @@ func (e *sfEngine) do(op sfOp) (succeeded bool, retID uint64, emitted bool) {
 		}
 		pre := rawOf(h.Ctx)
 		preParams := sk.GetParams(h.Ctx)
+		// x/lockup goes through the same export -> wipe -> import (its synthetic locks ARE the superfluid delegations: several
+		// owners delegating one share denomination to one validator share a synthetic denomination, every synthetic lock lasts
+		// the unbonding time whatever the duration of the lock underneath)
+		lk := h.App.LockupKeeper
+		lkey := h.App.GetKey(lockuptypes.StoreKey)
+		preLockup := rawStoreMap(h.Ctx, lkey)
+		preLeaves, _, _ := lockupAccumLeaves(h.Ctx, lkey)
+		nClusters, nDiffering := lockupSynthClusters(h.Ctx, lk)
 		err, pn := e.atomic(func(ctx sdk.Context) error {
+			lbz := cdc.MustMarshalJSON(lk.ExportGenesis(ctx))
+			lstore := ctx.KVStore(lkey)
+			for k := range preLockup {
+				lstore.Delete([]byte(k))
+			}
+			var lgs lockuptypes.GenesisState
+			cdc.MustUnmarshalJSON(lbz, &lgs)
+			lk.InitGenesis(ctx, lgs)
+			return nil
+		})
+		if pn || err != nil {
+			o.Fail("lockup:export-import:panics", fmt.Sprint(err))
+		} else {
+			o.Count("exportimport.lockup")
+			if nClusters > 0 {
+				o.Count("exportimport.lockup.synthetic-denom-with->=2-locks-at-one-duration")
+			}
+			if nDiffering > 0 {
+				o.Count("exportimport.lockup.synthetic-denom-with->=2-locks-at-one-duration.lock-duration-differs")
+			}
+			isAcc := func(k string) bool { return strings.HasPrefix(k, string(lockuptypes.KeyPrefixLockAccumulation)) }
+			diffs := storeDiffByClass(preLockup, rawStoreMap(h.Ctx, lkey), func(k, _ string) string {
+				if isAcc(k) {
+					return "" // sum trees: compared by meaning below (their shape depends on the insertion history)
+				}
+				return byteClass(k)
+			})
+			for _, c := range sortedClassKeys(diffs) {
+				o.Fail("export-import:derived-store-differs:lockup:"+c, fmt.Sprintf("%d keys, e.g. %s%s", diffs[c].n, diffs[c].sample, e.histStr()))
+			}
+			lockupDerivedOracle(h.Ctx, lk, lkey, preLeaves, func(cls, detail string) {
+				o.Fail("export-import:derived-store-differs:lockup:accumulation:"+cls, detail+e.histStr())
+			}, o.Count)
+		}
+		err, pn = e.atomic(func(ctx sdk.Context) error {
 			bz := cdc.MustMarshalJSON(sk.ExportGenesis(ctx))
 			store := ctx.KVStore(h.App.GetKey(sftypes.StoreKey))
 			var keys [][]byte
@@ -2090,6 +2150,7 @@ func (e *sfEngine) do(op sfOp) (succeeded bool, retID uint64, emitted bool) {
 		o.Count("tail.op." + op.kind + "." + strings.SplitN(res, " ", 2)[0])
 	} else {
 		o.Emit(line, res+" "+obs, op.kind != "advance")
+		e.hist = append(e.hist, line+" => "+strings.SplitN(res, " ", 2)[0])
 		o.Count("op." + op.kind + "." + strings.SplitN(res, " ", 2)[0])
 	}
 	e.oracle(op.kind, line, v, v0, repBefore)
